@@ -8,11 +8,12 @@ observation model says which dialect a window of rendered lines exhibits.
 
 JSON shapes
 -----------
-dialect : {"style": "gff3"|"gtf"|"gff2", "sep": ";"|"; "|" ; ", "trailing": bool, "repeated": bool}
+dialect : {"style": "gff3"|"gtf"|"gff2"|"gff3q", "sep": ";"|"; "|" ; ", "trailing": bool, "repeated": bool}
+          styles: gff3 key=value, gtf key "value", gff2 key value, gff3q key="value"
 record  : {"cols": [8 strings], "attrs": [[key, [values...]], ...], "extras": [strings]}
 """
 
-STYLES = ("gff3", "gtf", "gff2")
+STYLES = ("gff3", "gtf", "gff2", "gff3q")
 SEPS = (";", "; ", " ; ")
 
 # Characters GFF3 reserves in column 9 (spec section "Description of the format"):
@@ -30,9 +31,9 @@ def lib_dialect(d):
     return {
         "leading semicolon": False,
         "trailing semicolon": bool(d["trailing"]),
-        "quoted GFF2 values": style == "gtf",
+        "quoted GFF2 values": style in ("gtf", "gff3q"),
         "field separator": d["sep"],
-        "keyval separator": "=" if style == "gff3" else " ",
+        "keyval separator": "=" if style in ("gff3", "gff3q") else " ",
         "multival separator": ",",
         "fmt": "gtf" if style == "gtf" else "gff3",
         "repeated keys": bool(d["repeated"]),
@@ -56,6 +57,8 @@ def render_parts(attrs, d):
             joined = ",".join(g)
             if style == "gff3":
                 parts.append(key + "=" + joined)
+            elif style == "gff3q":
+                parts.append(key + '="' + joined + '"')
             elif style == "gtf":
                 parts.append(key + ' "' + joined + '"')
             else:
@@ -130,9 +133,9 @@ def observe(rec, d):
     obs = {
         "leading semicolon": False,
         "trailing semicolon": bool(d["trailing"]),
-        "quoted GFF2 values": style == "gtf",
+        "quoted GFF2 values": style == "gtf" or (style == "gff3q" and any(vs for _, vs in rec["attrs"])),
         "field separator": d["sep"] if len(parts) >= 2 else ";",
-        "keyval separator": "=" if style == "gff3" else " ",
+        "keyval separator": "=" if style in ("gff3", "gff3q") else " ",
         "multival separator": ",",
         "fmt": "gtf" if style == "gtf" else "gff3",
         "repeated keys": repeated_seen,
